@@ -2,7 +2,9 @@ package srvlab
 
 import (
 	"fmt"
+	"sort"
 	"strings"
+	"time"
 
 	"github.com/rminnich/go9p"
 
@@ -39,6 +41,7 @@ type Hist struct {
 	Fatal    bool // the session is unusable (no reply, connection lost)
 	Pairs    map[string]bool
 	Alphabet []uint32
+	inflight []inflightReq
 }
 
 func NewHist(cfg Config, nconn int, res *core.Result, prop string) *Hist {
@@ -403,8 +406,63 @@ func (h *Hist) Probe() {
 	}
 }
 
+// HoldInflight sends, on every connection, requests naming fids that are valid (a Tstat each, and one clone walk
+// to a new fid), all held inside the implementation; Finish then disconnects under them and lets them finish only
+// after the connection's close processing: the destruction accounting must still come out at exactly once.
+func (h *Hist) HoldInflight(max int) {
+	if h.Fatal {
+		return
+	}
+	for ci, c := range h.Conns {
+		var nums []uint32
+		for n, f := range h.Tabs[ci].Fids {
+			if !f.Auth() {
+				nums = append(nums, n)
+			}
+		}
+		sort.Slice(nums, func(i, j int) bool { return nums[i] < nums[j] })
+		if len(nums) > max {
+			nums = nums[:max]
+		}
+		for i, n := range nums {
+			h.nextTag++
+			if h.nextTag == wire.NOTAG {
+				h.nextTag = 1
+			}
+			m := &wire.Msg{Type: wire.Tstat, Fid: n, Tag: h.nextTag}
+			if i == 0 {
+				m = &wire.Msg{Type: wire.Twalk, Fid: n, Newfid: 7000 + uint32(ci), Tag: h.nextTag}
+			}
+			if h.Tabs[ci].Expect(m, false).Exp != model.Forward {
+				m = &wire.Msg{Type: wire.Tstat, Fid: n, Tag: h.nextTag}
+			}
+			p := script.NewPlan()
+			p.Gate = make(chan struct{})
+			p.Entered = make(chan struct{})
+			h.S.Ops.SetPlan(c.ID, m.Tag, p)
+			_ = c.Send(m)
+			select {
+			case <-p.Entered:
+				h.inflight = append(h.inflight, inflightReq{c.ID, m.Tag, p})
+				h.Res.Count("requests_executing_at_disconnect", 1)
+			case <-time.After(W):
+				close(p.Gate)
+				h.Res.Count("inflight_not_entered", 1)
+			}
+		}
+	}
+}
+
+type inflightReq struct {
+	conn int
+	tag  uint16
+	plan *script.Plan
+}
+
 // Finish disconnects every connection and checks the destruction accounting.
 func (h *Hist) Finish() {
+	seqIn := h.S.Log.Seq()
+	_ = seqIn
 	for _, c := range h.Conns {
 		c.Hangup()
 	}
@@ -415,6 +473,37 @@ func (h *Hist) Finish() {
 	for _, c := range h.Conns {
 		if !h.S.Ctl.WaitPassed("close.exit", c.ID, sched.AnyTag, 1, W) {
 			h.Res.Count("close_not_finished", 1)
+		}
+	}
+	if len(h.inflight) > 0 {
+		for _, q := range h.inflight {
+			close(q.plan.Gate)
+		}
+		left := map[[2]int]bool{}
+		for _, q := range h.inflight {
+			left[[2]int{q.conn, int(q.tag)}] = true
+		}
+		for t0 := time.Now(); len(left) > 0 && time.Since(t0) < W; {
+			for _, e := range h.S.Log.Snapshot(0) {
+				if e.Kind == "exit" {
+					delete(left, [2]int{e.Conn, int(e.Tag)})
+				}
+				if e.Kind == "op" && left[[2]int{e.Conn, int(e.Tag)}] {
+					for _, tok := range []int64{e.Fid, e.Newfid} {
+						if tok != 0 {
+							h.shown[tok] = true
+						}
+					}
+				}
+			}
+			if len(left) > 0 {
+				time.Sleep(200 * time.Microsecond)
+			}
+		}
+		// the requests have left the implementation; the framework's own post-processing of them is over when
+		// nothing is outstanding any more
+		for _, c := range h.Conns {
+			c.Quiesce(W)
 		}
 	}
 	if h.Fatal {
